@@ -214,6 +214,9 @@ func init() {
 		case "solver-soft-ms":
 			// incremental per-query timeout after which a query is re-run one-shot
 			in.solver.SoftMs = int(v)
+		case "gauss":
+			// add the row-reduced form of CRC equality systems (on by default)
+			in.ts.noGauss = v == 0
 		case "crc-top-class":
 			// bound: every symbolic CRC value is assumed >= 2^28 (5-byte protobuf varint, 15/16 of all
 			// values) so that record sizes do not fork five ways per record
